@@ -55,12 +55,47 @@ def _fn_name(fn):
     return getattr(inner, '__name__', repr(inner))
 
 
+class VTask(tasks.Task):
+    """Task whose hash is its creation number: the iteration order of the
+    done/pending *sets* of asyncio.wait no longer depends on object addresses,
+    so replays are deterministic"""
+    _vt_seq = 0
+
+    def __hash__(self):
+        return self._vt_seq
+
+
+_hash_map: dict = {}     # id(future) -> first-use number (futures pinned until the next world)
+_hash_keep: list = []
+
+
+def _lazy_hash(self):
+    key = id(self)
+    h = _hash_map.get(key)
+    if h is None:
+        h = _hash_map[key] = len(_hash_map) + 1
+        _hash_keep.append(self)
+    return h
+
+
+def _reset_hashes():
+    _hash_map.clear()
+    _hash_keep.clear()
+
+
+def deterministic_future_hashes(*classes):
+    """Futures of these (Python) classes hash by first-use order"""
+    for cls in classes:
+        cls.__hash__ = _lazy_hash
+
+
 class VLoop(asyncio.BaseEventLoop):
 
     def __init__(self):
         super().__init__()
         self._vtime = 0.0
         self._clock_resolution = 1e-9
+        _reset_hashes()
         self.all_tasks_created: list[asyncio.Task] = []
         self.exc_contexts: list[dict] = []
         self.batches = 0
@@ -91,7 +126,8 @@ class VLoop(asyncio.BaseEventLoop):
         pass
 
     def _vt_task_factory(self, loop, coro, **kwargs):
-        task = tasks.Task(coro, loop=loop, **kwargs)
+        task = VTask(coro, loop=loop, **kwargs)
+        task._vt_seq = len(self.all_tasks_created) + 1
         self.all_tasks_created.append(task)
         return task
 
